@@ -379,7 +379,10 @@ def r5_counts(ctx, rep, R):
             cfg = ctx.cfg(f)
             entries = []
             for n, c in node_calls(cfg, "add_transaction"):
-                args = [utext(a) for a in c.args] + ["%s=%s" % (k.arg, utext(k.value)) for k in c.keywords]
+                from sa.kinds import resolve_local
+                # an argument may be named by a local first (`n = len(order_package)`)
+                args = [utext(resolve_local(f, a)) if isinstance(a, ast.Name) and a.id != "failed_transaction_count" else utext(a)
+                        for a in c.args] + ["%s=%s" % (k.arg, utext(k.value)) for k in c.keywords]
                 gs = sorted((utext(g.exprs[0]), pol) for g, pol in cfg.guards(n.id)
                             if utext(g.exprs[0]) != "order_package.client.paper_trade")
                 in_loop = any(n.ast in walk_nodes(lp.body, ast.stmt) for lp in walk_nodes(f.node.body, ast.For))
